@@ -104,6 +104,27 @@ namespace symv {
       const double v = static_cast<double>(v0);
       // exact small rational?
       bool found = false;
+#ifdef VERIF_SYM_EXACT_DOUBLES
+      // opt-in (per tracer): a double is never replaced by a nearby rational; only dyadic values with at most 20
+      // fractional bits become (exact) rationals, every other double stays a literal with its exact value
+      if (v == v && v < 1e9 && v > -1e9) {
+        const double sc = v * 1048576.0;
+        const long long si = static_cast<long long>(sc);
+        if (static_cast<double>(si) == sc) {
+          const long long g0 = cgcd(si, 1048576LL);
+          kind = 0;
+          num = si / g0;
+          den = 1048576LL / g0;
+          rad = 1;
+          found = true;
+        }
+      }
+      if (!found) {
+        kind = 2;
+        d = v;
+      }
+      if (found || !found) return;
+#endif
       if (v == v && v < 9e15 && v > -9e15) {
         // continued fraction expansion
         double x = v < 0 ? -v : v;
@@ -691,6 +712,48 @@ namespace symv {
       for (int x : n.args) count(x);
     }
     static bool atomic(const Node& n) { return n.op == VAR || n.op == CST || n.op == DCST; }
+    // additive option: print double literals as their exact dyadic rational instead of the shortest decimal
+    static bool& exact_dyadic() {
+      static bool b = false;
+      return b;
+    }
+    // decimal string of m * 2^k (m >= 0, k >= 0)
+    static std::string dec_shift(unsigned long long m, int k) {
+      std::string d = std::to_string(m);  // most significant digit first
+      for (int i = 0; i < k; ++i) {
+        int carry = 0;
+        for (size_t j = d.size(); j-- > 0;) {
+          int v = (d[j] - '0') * 2 + carry;
+          d[j] = static_cast<char>('0' + v % 10);
+          carry = v / 10;
+        }
+        if (carry) d.insert(d.begin(), static_cast<char>('0' + carry));
+      }
+      return d;
+    }
+    // exact value of a finite double: returns numerator (signed) and denominator (power of two) as decimal strings
+    static void dyadic_parts(double v, std::string& num, std::string& den) {
+      if (!(v == v) || v - v != 0) throw SymError("dyadic: non-finite double literal");
+      int e = 0;
+      double m = std::frexp(v < 0 ? -v : v, &e);  // m in [0.5,1)
+      unsigned long long mi = static_cast<unsigned long long>(std::ldexp(m, 53));
+      e -= 53;
+      while (mi != 0 && (mi & 1ULL) == 0 && e < 0) {
+        mi >>= 1;
+        ++e;
+      }
+      if (mi == 0) e = 0;
+      num = (v < 0 ? "-" : "") + dec_shift(mi, e > 0 ? e : 0);
+      den = dec_shift(1ULL, e < 0 ? -e : 0);
+    }
+    static std::string dyadic(double v) {
+      std::string n, d;
+      dyadic_parts(v, n, d);
+      std::string core = n[0] == '-' ? n.substr(1) : n;
+      if (d != "1") core = "(" + core + " / " + d + ")";
+      if (n[0] == '-') core = "(- " + core + ")";
+      return core;
+    }
     static std::string cst(const Node& n) {
       std::ostringstream o;
       if (n.op == CST) {
@@ -702,6 +765,8 @@ namespace symv {
         if (n.rad != 1) core = "(" + core + " * sqrt " + std::to_string(n.rad) + ")";
         return core;
       }
+      // optional (off by default): exact dyadic value of the double, `(m / 2^k)` with both integers in decimal
+      if (exact_dyadic()) return dyadic(n.d);
       // double literal: shortest decimal that round trips
       char buf[64];
       int prec = 1;
